@@ -30,9 +30,10 @@ fn describe(ops: &[WOp]) -> String {
 }
 
 /// Histories through a sink that fails. The properties say nothing about the state of the output after an
-/// I/O error (C19 excludes them by name), so the oracle is deliberately narrow: `Interrupted` is invisible;
-/// everything up to the first real failure is exactly the fault-free run; the failure is reported by the call
-/// during which it happened, carrying the sink's own error; nothing panics afterwards.
+/// I/O error (C19 excludes them by name), so the oracle is deliberately narrow: everything up to the first real
+/// failure is exactly the fault-free run, what the destination held at that moment is a prefix of the fault-free
+/// output ("never retracted or altered"), and nothing panics afterwards. Whether `Interrupted` is retried and
+/// whether the failing call returns the sink's own error are counted (probes), not judged: no property says so.
 fn exec_faulted(c: &Case, st: &mut Stats) -> Result<ExecOk, Fail> {
     let clean = WScript { faults: vec![], flush_faults: vec![], ..c.wscript.clone() };
     let w0 = run_writer(&c.spec, &c.ops, &clean, true);
@@ -51,11 +52,14 @@ fn exec_faulted(c: &Case, st: &mut Stats) -> Result<ExecOk, Fail> {
  sink script: {}", p, describe(&c.ops), c.wscript.to_j());
     }
     let Some(f) = w.failures.first() else {
-        // only Interrupted (or nothing) was delivered: the run must be indistinguishable from the fault-free one
+        // only Interrupted (or nothing) was delivered. No property says that Interrupted must be retried, so a visible
+        // difference is counted, not judged; what was handed over must still be a prefix of the fault-free output.
         if w.results != w0.results || w.into_inner != w0.into_inner || w.out != w0.out {
-            fail!("interrupted-write-visible", "with Interrupted returned by {} write call(s) the results or the output differ from the fault-free run ({} vs {} bytes)
- calls: {}
- sink script: {}", w.interrupted, w.out.len(), w0.out.len(), describe(&c.ops), c.wscript.to_j());
+            st.inc("observed_interrupted_write_visible");
+            if w.out.len() > w0.out.len() || w.out[..] != w0.out[..w.out.len()] {
+                fail!("altered-before-sink-error", "after Interrupted the destination holds bytes that are not a prefix of the fault-free output; calls: {}; sink script: {}", describe(&c.ops), c.wscript.to_j());
+            }
+            return Ok(ExecOk { nontrivial: w.interrupted > 0 });
         }
         if w.interrupted > 0 {
             st.inc("probe_interrupted_write_retried");
@@ -86,9 +90,8 @@ fn exec_faulted(c: &Case, st: &mut Stats) -> Result<ExecOk, Fail> {
         Err(WErrV::Write { kind, token }) if *kind == f.kind && *token == f.token => {
             st.inc("probe_sink_error_carried");
         }
-        other => fail!("sink-error-not-reported", "the sink failed ({} #{}) during call {} ({}), which returned {:?}
- calls: {}
- sink script: {}", f.kind, f.token, at, if at < c.ops.len() { c.ops[at].short() } else { "final flush".into() }, other, describe(&c.ops), c.wscript.to_j()),
+        // no property says how (or that) a sink error is reported: counted, not judged
+        _ => st.inc("observed_sink_error_not_reported_by_the_failing_call"),
     }
     if at < c.ops.len() {
         st.inc("probe_calls_continued_after_sink_error");
@@ -371,7 +374,7 @@ impl Check for C10 {
         v
     }
     fn rule(&self) -> &'static str {
-        "One case = specification + valid writer call history (known- and unknown-size masters interleaved, Full masters, raw writes, explicit widths; optionally cut short and ended by flush() or just into_inner()) through a short-writing sink. Observed after every call and every partial write. Checked: final bytes independent of the partial-write schedule and never shrinking; while a known-size master is open nothing beyond the start of the outermost one is delivered; after a leaf / Full / End / raw write with no known-size master open the delivered bytes decode (reference decoder) to exactly the tags accepted so far; after flush()/into_inner() the document is complete. One history in six runs through a failing sink instead (Interrupted, a hard error, Ok(0), or a failing flush at a scripted call): Interrupted must be invisible, everything before the first real failure must equal the fault-free run and be a prefix of its output, the failing call must return the sink's own error, and nothing may panic afterwards. Non-trivial: a visibility check happened inside an open unknown-size master, or at least 3 calls. Distinct: FNV-1a fingerprint of the call history + specification."
+        "One case = specification + valid writer call history (known- and unknown-size masters interleaved, Full masters, raw writes, explicit widths; optionally cut short and ended by flush() or just into_inner()) through a short-writing sink. Observed after every call and every partial write. Checked: final bytes independent of the partial-write schedule and never shrinking; while a known-size master is open nothing beyond the start of the outermost one is delivered; after a leaf / Full / End / raw write with no known-size master open the delivered bytes decode (reference decoder) to exactly the tags accepted so far; after flush()/into_inner() the document is complete. One history in six runs through a failing sink instead (Interrupted, a hard error, Ok(0), or a failing flush at a scripted call): everything before the first real failure must equal the fault-free run and be a prefix of its output, and nothing may panic afterwards (whether Interrupted is retried and whether the failing call returns the sink's own error are counted, not judged). Non-trivial: a visibility check happened inside an open unknown-size master, or at least 3 calls. Distinct: FNV-1a fingerprint of the call history + specification."
     }
     fn assumptions(&self) -> Vec<&'static str> {
         vec![
